@@ -45,6 +45,8 @@ void operator delete[](void* p) noexcept { std::free(p); }
 void operator delete(void* p, std::size_t) noexcept { std::free(p); }
 void operator delete[](void* p, std::size_t) noexcept { std::free(p); }
 
+extern "C" int __lsan_do_recoverable_leak_check();
+
 namespace {
 
 struct Inner {
@@ -193,6 +195,23 @@ Register f3("fault.io", [](const Tokens& t) -> std::string {
 	g_faultTriggered = false;
 	const std::string r = runScenario(t[1], std::stoul(t[2]), true);
 	return g_faultTriggered ? r : std::string("skip");
+});
+
+// fault.option <csv_load_mem|csv_load_stream|csv_save_mem|csv_save_stream> <separator code>: an option the library rejects
+// (library-detected error raised while the root scope is being set up); leak check right after the call
+Register f5("fault.option", [](const Tokens& t) -> std::string {
+	if (t.size() != 3) throw BadOp("arity");
+	static const std::string csvDoc = SaveObject<Csv::CsvArchive>(sampleRows());
+	SerializationOptions o;
+	o.valuesSeparator = static_cast<char>(std::stoi(t[2]));
+	std::string r;
+	if (t[1] == "csv_load_mem") r = guarded([&] { std::vector<Row> v; LoadObject<Csv::CsvArchive>(v, csvDoc, o); });
+	else if (t[1] == "csv_load_stream") r = guarded([&] { std::vector<Row> v; std::istringstream is(csvDoc); LoadObject<Csv::CsvArchive>(v, is, o); });
+	else if (t[1] == "csv_save_mem") r = guarded([&] { auto v = sampleRows(); std::string out; SaveObject<Csv::CsvArchive>(v, out, o); });
+	else if (t[1] == "csv_save_stream") r = guarded([&] { auto v = sampleRows(); std::ostringstream os; SaveObject<Csv::CsvArchive>(v, os, o); });
+	else throw BadOp("scenario");
+	if (__lsan_do_recoverable_leak_check()) r += " LEAK";
+	return r;
 });
 
 Register f4("fault.midsave", [](const Tokens& t) -> std::string {
